@@ -301,8 +301,9 @@ def adc(img, gain, saturation_capacity=None, warn_saturate=False, dtype=None):
             if np.any(img > saturation_capacity):
                 warnings.warn('Frame has saturated pixels.')
 
-        # Apply the saturation limit
-        img[img > saturation_capacity] = saturation_capacity
+        # Apply the saturation limit (to a new array: the caller's frame is
+        # left untouched and an integer frame is not truncated)
+        img = np.minimum(img, saturation_capacity)
 
     # Determine the polynomial order
     gain = np.asarray(gain)
